@@ -53,6 +53,19 @@ func groups(tier string) []group {
 			gs = append(gs, group{fmt.Sprintf("%s-nested/p%d-%d", side, from, from+36), func(tier string, y func(*scen) bool) { enumNested(tier, side, from, from+36, y) }})
 		}
 	}
+	// the whole table with literal defaults that equal the zero value (a parsed default all the same)
+	for _, side := range []string{"j2t", "t2j", "cut"} {
+		side := side
+		for from := 0; from < 216; from += 72 {
+			from := from
+			gs = append(gs, group{fmt.Sprintf("%s-zero-literals/p%d-%d", side, from, from+72), func(tier string, y func(*scen) bool) { enumFlat(tier, side, zeroLits, from, from+72, y) }})
+		}
+	}
+	// the JSON side again through the portable converter (default parse options, the options its server knows)
+	for from := 0; from < 216; from += 36 {
+		from := from
+		gs = append(gs, group{fmt.Sprintf("j2t-portable/p%d-%d", from, from+36), func(tier string, y func(*scen) bool) { enumFlat(tier, "j2t-portable", -1, from, from+36, y) }})
+	}
 	gs = append(gs, group{"dirty", enumDirty})
 	return gs
 }
@@ -93,12 +106,15 @@ func genericOpts() []struct {
 
 func enumFlat(tier, side string, layout, from, to int, yield func(*scen) bool) {
 	nst := 3
-	if side != "j2t" {
+	if side != "j2t" && side != "j2t-portable" {
 		nst = 2
 	}
 	for pi := from; pi < to; pi++ {
 		p := mkProgramL(pi, layout)
 		for _, po := range parseOpts() {
+			if side == "j2t-portable" && (po.SetOptionalBitmap || po.UseDefaultValue) {
+				continue // the portable server parses with default options
+			}
 			emit := func(co conv.Options, g generic.Options, on string) bool {
 				total := 1
 				for i := 0; i < 3; i++ {
@@ -122,15 +138,23 @@ func enumFlat(tier, side string, layout, from, to int, yield func(*scen) bool) {
 							sc := &scen{side: side, p: p, po: po, co: co, gopt: g, optName: on, state: states, order: ord, unknown: unk}
 							if side == "j2t" {
 								sc.ks = []int{0, 1, 2, 3, 5, 8, 13}
-								if layout >= 0 {
+								if layout != -1 {
 									sc.ks = []int{0, 3}
 								}
 							}
-							if layout >= 0 && (oi == 1 || unk) {
-								continue // edge layouts: declared order, no unknown member
+							if layout != -1 && (oi == 1 || unk) {
+								continue // edge layouts / zero literals: declared order, no unknown member
 							}
 							if !yield(sc) {
 								return false
+							}
+							if unk && (side == "j2t" || side == "j2t-portable") {
+								// the unknown member spelled with a null value
+								nc := *sc
+								nc.unkNull = true
+								if !yield(&nc) {
+									return false
+								}
 							}
 						}
 					}
@@ -145,6 +169,9 @@ func enumFlat(tier, side string, layout, from, to int, yield func(*scen) bool) {
 				}
 			} else {
 				for _, os := range jt.Subsets(convFlags...) {
+					if side == "j2t-portable" && os.O.WriteOptionalField {
+						continue // not among the options of the portable server
+					}
 					if !emit(os.O, generic.Options{}, os.Name) {
 						return
 					}
